@@ -1924,6 +1924,17 @@ def p_each( ctx ):
             res.ok( src, call, 'member dispatched to the routed target with the session addr' )
         else:
             res.bad( src, call, call, 'members must be dispatched to the routed target object with the session address' )
+    # a member's reply is rendered INTO the member ( r.service, r.status, r.input ... ): the bundle reply is produced from the list the loop runs
+    # over, so the loop variable is never re-bound - `r = <helper>( r )` answers a copy and leaves the request itself in the list, which
+    # is then echoed back where its reply belongs ( no reply bit, no status )
+    rebound = [ a_ for a_ in ast.walk( f ) if a_ is not f and isinstance( a_, ( ast.Assign, ast.AugAssign, ast.For, ast.With )) and any(
+        isinstance( t_, ast.Name ) and t_.id == var and isinstance( t_.ctx, ast.Store ) and not ( isinstance( a_, ast.With ))
+        for tg_ in ( a_.targets if isinstance( a_, ast.Assign ) else [ a_.target ] if isinstance( a_, ( ast.AugAssign, ast.For )) else [] ) for t_ in ast.walk( tg_ )) ]
+    if rebound:
+        res.bad( src, rebound[0], 'Message_Router.request: the member loop re-binds its loop variable ( %s )' % norm_text( ast.unparse( rebound[0] ))[:70],
+                 'the reply of that member is rendered into another object than the one in data.multiple.request: the bundle reply carries the member\'s REQUEST octets where its reply belongs ( no reply bit, no status ) - the same request sent alone is answered service | 0x80, status 0x08' )
+    else:
+        res.ok( src, f, 'the member loop never re-binds %s: every reply is rendered into the member the bundle reply is produced from' % var )
     # the loop body never touches the bundle's own status
     st = [ s for s in ast.walk( f ) if isinstance( s, ast.Assign ) and any( dotted( t ) == 'data.status' for t in s.targets ) ]
     if st:
